@@ -1,5 +1,5 @@
 (* C03 — Unix timestamps and ordering are a faithful linear time line. *)
-From Astro Require Import Base DateModel TimeModel ApiModel InstantSpec TimeProofs.
+From Astro Require Import Base DateModel TimeModel ApiModel InstantSpec TimeProofs SinceSign.
 
 (* in-range timestamp: DateTime round trip, exact instant, UTC offset *)
 Theorem C03_ts_dt : forall t, ts_in_range t ->
@@ -26,6 +26,14 @@ Proof. exact c03_cmp. Qed.
 Theorem C03_cmp_since : forall a b, Inv_dt a -> Inv_dt b -> dt_nanos_since a b = instant a - instant b.
 Proof. exact c06_nanos. Qed.
 
+(* order agrees with the sign of every *_since difference: a positive difference in any unit means a > b, a negative one
+   a < b, and equal instants give 0 in every unit *)
+Theorem C03_order_since : forall a b, Inv_dt a -> Inv_dt b ->
+  forall s, In s [dt_hours_since a b; dt_minutes_since a b; dt_seconds_since a b; dt_millis_since a b; dt_micros_since a b;
+                  dt_nanos_since a b; dt_days_since a b] ->
+  (0 < s -> dt_cmp a b = Gt) /\ (s < 0 -> dt_cmp a b = Lt) /\ (dt_cmp a b = Eq -> s = 0).
+Proof. exact c03_order_since. Qed.
+
 Example C03_nonvacuous : ts_in_range (-62135596801) /\ ~ ts_in_range 185480451590400 /\ in_i64 185480451590400.
 Proof. unfold ts_in_range, in_i64, EPOCH_SECS, DAYS_TO_1970, SECS_PER_DAY, I32_MIN, I32_MAX, I64_MIN, I64_MAX. lia. Qed.
 
@@ -36,3 +44,4 @@ Print Assumptions C03_ts_date_panic.
 Print Assumptions C03_epoch.
 Print Assumptions C03_cmp.
 Print Assumptions C03_cmp_since.
+Print Assumptions C03_order_since.
